@@ -140,7 +140,34 @@ PCS = ['checked', 'link', 'any-link', 'disabled', 'enabled', 'required', 'option
 
 
 def pc_ext(ref, e, p):
-    return False if not ref.is_html else None          # not modelled here: only the reference-free law applies
+    """HTML-only pseudo-classes: never in a document that is not HTML; in an HTML document the three simplest are modelled
+    (they are defined on HTML-namespace elements, whatever the caller's prefix map says - in particular its default entry),
+    the others are left to the reference-free select-vs-match law."""
+    if not ref.is_html:
+        return False
+    name = p[1]
+    if name not in ('link', 'any-link', 'checked'):
+        return None
+    if ref.ns_aware and e.ns != NS_XHTML:
+        return False
+    nm = e.name if ref.is_xml else e.name.lower()
+
+    def has(a):
+        return any(ans is None and (k if ref.is_xml else k.lower()) == a for (k, ans, alocal, v) in e.attrs)
+
+    def val(a):
+        for (k, ans, alocal, v) in e.attrs:
+            if ans is None and (k if ref.is_xml else k.lower()) == a:
+                return v
+        return None
+    if name in ('link', 'any-link'):
+        return nm in ('a', 'area') and has('href')
+    if nm == 'option':
+        return has('selected')
+    if nm == 'input' and has('checked'):
+        t = val('type')
+        return isinstance(t, str) and (t if ref.is_xml else t.lower()) in ('checkbox', 'radio')
+    return False
 
 
 def _cfg(prefixes, aprefixes, names, anames, default_in_map):
@@ -167,6 +194,9 @@ def run_unit(u):
         if rng.random() < .7:
             root = gen_xml(rng)
             how = rng.choice(['xml', 'xml', 'api-xml'])
+            if rng.random() < .12:
+                how += '+graft'        # an html.parser-made element moved into the XML tree: the document is still XML
+                bump('grafted_trees')
             maps = MAPS_XML
             pf = [None, None, 'p1', 'p2', 'p3', '*', '', 'x', 'nope', 'html']
             names, anames = NAMES + ['root'], ANAMES + ['lang', 'class']
